@@ -657,7 +657,7 @@ impl LogRng {
     }
     fn note(&mut self, kind: u8, w: u64) {
         self.total += 1;
-        if self.log.len() < 48 {
+        if self.log.len() < 160 {
             self.log.push((kind, w));
         }
     }
@@ -691,7 +691,10 @@ fn prefix_words(kind: &str, k: usize) -> Vec<u64> {
         "alt2" => (0..k).map(|i| if i % 2 == 0 { 0xaaaa_aaaa_aaaa_aaaa } else { 0x5555_5555_5555_5555 }).collect(),
         "top" => vec![0xffff_ffff_ffff_f000; k],
         "low" => vec![0x0000_0000_0000_0fff; k],
-        _ => vec![],
+        other => match other.strip_prefix("hex:").and_then(|h| u64::from_str_radix(h, 16).ok()) {
+            Some(x) => vec![x; k],
+            None => vec![],
+        },
     }
 }
 
